@@ -66,6 +66,7 @@ class FakeS3:
         self.objects = {}
         self.captured = []
         self.pages = []       # continuation tokens to hand out on successive listing calls
+        self.put_faults = 0   # this many PUT attempts are answered 503 after the body was read (the adapter retries)
         self.canon = []       # per prepared request: (canonical request, string to sign) as the module hashed/signed them
 
     async def handler(self, request):
@@ -76,6 +77,10 @@ class FakeS3:
         path = rec['target'].partition(b'?')[0]
         m = request.method
         if m == 'PUT':
+            if self.put_faults > 0:
+                self.put_faults -= 1
+                rec['answered'] = 503
+                return httpx.Response(503)
             self.objects[path] = rec['body']
             return httpx.Response(200)
         if m == 'HEAD':
@@ -151,6 +156,7 @@ def wrap_stream(data, kind):
 
 async def run_ops(sc, fake, clock):
     cfg = sc['cfg']
+    fake.put_faults = sc.get('put_faults', 0)
     with instrumented(fake, clock) as s3c:
         if cfg.get('aws'):
             from replicat.backends import s3 as s3mod
@@ -375,7 +381,10 @@ def gen_ops(rng, n, namegen):
 
 def gen_scenario(rng, nops=6):
     ops = gen_ops(rng, nops, gen_name)
-    return {'cfg': gen_cfg(rng), 'ops': ops, 'stamps': gen_stamps(rng, 4 * len(ops) + 4)}
+    sc = {'cfg': gen_cfg(rng), 'ops': ops, 'stamps': gen_stamps(rng, 8 * len(ops) + 16)}
+    if rng.random() < 0.3:
+        sc['put_faults'] = rng.choice([1, 2, 3])      # transient 503s on PUT: every retry must again declare what it sends
+    return sc
 
 
 def gen_dot_probe(rng):
